@@ -21,7 +21,9 @@ Open Scope N_scope.
 Inductive nreader :=
 | RAccum (n : N)
 | RBlock (n : N)
-| RBlockLoop (n : N).
+| RBlockLoop (n : N)
+| RBlockLoopRel (n : N).   (* blocks in an inner loop, [start] taken once before the first block, then [seek(start + end + 1)] with [end]
+                              relative to the LAST block: right only when the terminator is in the first block (seeded c13_6) *)
 
 (** [bytes.find(b'\x00')] *)
 Fixpoint find0 (b : bytes) : option nat :=
@@ -51,17 +53,28 @@ Fixpoint block_loop (fuel n : nat) (racc bs : bytes) : option (bytes * bytes) :=
     end
   end.
 
+(** as [block_loop], but the position left is [start + end + 1] counted from where the first block began ([orig]) *)
+Fixpoint block_loop_rel (fuel n : nat) (racc bs orig : bytes) : option (bytes * bytes) :=
+  match fuel with O => None | S f =>
+    let c := firstn n bs in
+    match find0 c with
+    | Some e => Some (rev racc ++ firstn e bs, skipn (S e) orig)
+    | None => match c with [] => None | _ => block_loop_rel f n (rev_append c racc) (skipn n bs) orig end
+    end
+  end.
+
 (** Every iteration that continues consumed at least one byte, so [S (length bs)] iterations are always enough. *)
 Definition read_cstr_r (r : nreader) (bs : bytes) : option (bytes * bytes) :=
   match r with
   | RAccum n => accum_loop (S (length bs)) (N.to_nat n) [] bs
   | RBlock n => block_once (N.to_nat n) bs
   | RBlockLoop n => block_loop (S (length bs)) (N.to_nat n) [] bs
+  | RBlockLoopRel n => block_loop_rel (S (length bs)) (N.to_nat n) [] bs bs
   end.
 
 (** The shapes that read a string of every length: one byte at a time, or blocks of any positive size in a loop. *)
 Definition reader_ok (r : nreader) : bool :=
-  match r with RAccum n => n =? 1 | RBlock _ => false | RBlockLoop n => 0 <? n end.
+  match r with RAccum n => n =? 1 | RBlock _ => false | RBlockLoop n => 0 <? n | RBlockLoopRel _ => false end.
 
 (** Both functions.  [nc_term]: what the writer appends to a non-empty string; [nc_blank_w]: what it writes for the empty string;
     [nc_blank_r]: the string the reader turns into the empty string; [nc_dispatch]: the reader's three-way dispatch was recognised as
